@@ -641,16 +641,16 @@ Section Run.
 Variable all : list block.
 Variable f2 : fs.
 Variable c0 : time.
-Variable tx : file -> bool.
+Variable tx : block -> file -> bool.   (* per block: which prerequisites are newer than its key *)
 Hypothesis Hnd : NoDup (tgts all).
 Hypothesis Hord : ordered_b all.
 Hypothesis Hbelow : fs_below f2 c0.
 Hypothesis Hsrc : forall b, In b all -> forall p, In p (b_deps b ++ b_ord b) -> ~ In p (tgts all) -> f2 p <> None.
-Hypothesis Hq2 : forall b, In b all -> forall p, In p (b_deps b) -> newer_o (f2 p) (f2 (b_key b)) = tx p.
+Hypothesis Hq2 : forall b, In b all -> forall p, In p (b_deps b) -> newer_o (f2 p) (f2 (b_key b)) = tx b p.
 Hypothesis Hq3 : forall b, In b all -> f2 (b_key b) <> None -> forall y, In y (b_targets b) -> f2 y <> None.
 
 Definition bfire (d : list file) (b : block) : bool :=
-  is_none (f2 (b_key b)) || existsb (fun p => tx p || memf p d) (b_deps b).
+  is_none (f2 (b_key b)) || existsb (fun p => tx b p || memf p d) (b_deps b).
 Definition bd_step (acc : list file * list block) (b : block) : list file * list block :=
   if bfire (fst acc) b then (fst acc ++ b_targets b, snd acc ++ [b]) else acc.
 
@@ -816,9 +816,9 @@ Proof.
     + intros b' Hb'. apply in_app_or in Hb' as [Hb'|[<-|[]]]; [exact (i_q _ _ _ _ _ I b' Hb')|].
       split; [|split].
       * exists tk. split; [now rewrite Hkey|]. intros p Hp.
-        pose proof (existsb_exists (fun p => tx p || memf p d) (b_deps b)) as Hex.
-        assert (Hp2 : tx p || memf p d = false).
-        { destruct (tx p || memf p d) eqn:E; [|reflexivity]. rewrite <- Edeps. symmetry. apply Hex. now exists p. }
+        pose proof (existsb_exists (fun p => tx b p || memf p d) (b_deps b)) as Hex.
+        assert (Hp2 : tx b p || memf p d = false).
+        { destruct (tx b p || memf p d) eqn:E; [|reflexivity]. rewrite <- Edeps. symmetry. apply Hex. now exists p. }
         apply orb_false_iff in Hp2 as [Htx Hd].
         destruct (Hleaf p (in_or_app _ _ _ (or_introl Hp))) as [Hexi _].
         rewrite (i_same _ _ _ _ _ I p Hd) in *. destruct (f2 p) as [tp|] eqn:Ep; [|congruence].
@@ -839,6 +839,75 @@ Proof.
     pose proof (inv_step n pre b post d ran s Eall I) as I'.
     destruct (bd_step (d, ran) b) as [d' ran'] eqn:Eb. cbn [fst snd] in I'.
     apply (IH (pre ++ [b]) d' ran'); [now rewrite <- app_assoc|exact I'].
+Qed.
+
+(* the same for a part of the goals (used by StampFailProofs.v: the build up to the step that fails) *)
+Lemma inv_run_part n : forall mid pre post d ran s,
+  all = pre ++ mid ++ post -> Inv pre (mid ++ post) d ran s ->
+  let r := fold_left bd_step mid (d, ran) in
+  Inv (pre ++ mid) post (fst r) (snd r) (fold_left (fun a g => update (S (S (S n))) (rules all) g a) (goals mid) s).
+Proof.
+  induction mid as [|b mid IH]; intros pre post d ran s Eall I.
+  - cbn [fold_left goals flat_map fst snd app] in *. now rewrite app_nil_r.
+  - cbn [fold_left goals flat_map]. rewrite fold_left_app.
+    pose proof (inv_step n pre b (mid ++ post) d ran s Eall I) as I'.
+    destruct (bd_step (d, ran) b) as [d' ran'] eqn:Eb. cbn [fst snd] in I'.
+    replace (pre ++ b :: mid) with ((pre ++ [b]) ++ mid) by now rewrite <- app_assoc.
+    apply (IH (pre ++ [b]) post d' ran'); [now rewrite <- app_assoc|exact I'].
+Qed.
+
+Lemma inv_init : Inv [] all [] [] (mkD f2 c0 [] [] [] [] false).
+Proof.
+  constructor; cbn [d_fail d_log d_fs d_clk d_cache d_done map tgts flat_map]; auto; try lia;
+    try (intros y H; discriminate H); try (intros y v H; discriminate H); try (intros y []); try (intros b []).
+Qed.
+
+(* what the invariant says about the next block: it can be run, and it fires as the fold predicts *)
+Lemma inv_pre pre b post d ran s :
+  all = pre ++ b :: post -> Inv pre (b :: post) d ran s ->
+  block_pre (rules all) b s /\ bfires b s = bfire d b.
+Proof.
+  intros Eall I. set (rs := rules all).
+  assert (Etg : tgts all = tgts pre ++ b_targets b ++ tgts post).
+  { rewrite Eall, tgts_app. reflexivity. }
+  assert (Hball : In b all) by (rewrite Eall; apply in_or_app; right; now left).
+  assert (Hndb : NoDup (b_targets b)).
+  { rewrite Etg in Hnd. apply nd_app_r in Hnd. now apply nd_app_l in Hnd. }
+  assert (Hdisj1 : forall y, In y (tgts pre) -> ~ In y (b_targets b ++ tgts post)).
+  { intros y H1 H2. rewrite Etg in Hnd. exact (nd_disj _ _ y Hnd H1 H2). }
+  rewrite Eall in Hord. destruct (ordered_b_app pre b post Hord) as [Hob Hopre].
+  change (tgts (b :: post)) with (b_targets b ++ tgts post) in Hob, Hopre.
+  assert (Hbt_nd : forall y, In y (b_targets b) -> memf y d = false).
+  { intros y Hy. destruct (memf y d) eqn:E; [|reflexivity]. exfalso.
+    apply (Hdisj1 y (i_dsub _ _ _ _ _ I y E)). apply in_or_app. now left. }
+  assert (Hleaf : leafy rs s (b_deps b ++ b_ord b)).
+  { intros p Hp. destruct (in_dec N.eq_dec p (tgts all)) as [Hin|Hnin].
+    - rewrite Etg in Hin. apply in_app_or in Hin as [Hin|Hin]; [|exfalso; exact (Hob p Hp Hin)].
+      split; [exact (i_ex _ _ _ _ _ I p Hin)|left; exact (i_done _ _ _ _ _ I p Hin)].
+    - split.
+      + rewrite (i_same _ _ _ _ _ I).
+        * exact (Hsrc b Hball p Hp Hnin).
+        * destruct (memf p d) eqn:E; [|reflexivity]. exfalso. apply Hnin. rewrite Etg. apply in_or_app. left.
+          exact (i_dsub _ _ _ _ _ I p E).
+      + right. apply find_x_none. unfold rs. now rewrite rules_targets. }
+  split.
+  { split; [exact (i_fail _ _ _ _ _ I)|]. split; [exact (i_coh _ _ _ _ _ I)|]. split; [exact (i_below _ _ _ _ _ I)|].
+    split. { intros y Hy. apply (i_fresh _ _ _ _ _ I). apply in_or_app. now left. }
+    split. { intros r Hr. apply find_x_some; [unfold rs; now rewrite rules_targets|].
+             unfold rs, rules. apply in_flat_map. now exists b. }
+    split. { intros r Hr. exact (rules_nophony all r Hr). }
+    split; [exact Hndb|]. split; [|exact Hleaf].
+    intros p Hp Hin. apply (Hob p Hp). apply in_or_app. now left. }
+  assert (Hkey : d_fs s (b_key b) = f2 (b_key b)).
+  { apply (i_same _ _ _ _ _ I). apply Hbt_nd. apply key_targets. }
+  unfold bfires, bfire, needf. rewrite Hkey. destruct (f2 (b_key b)) as [tk|] eqn:Ek; [|reflexivity].
+  cbn [is_none orb]. apply existsb_ext_in. intros p Hp.
+  destruct (Hleaf p (in_or_app _ _ _ (or_introl Hp))) as [Hex _].
+  destruct (memf p d) eqn:Ed.
+  - destruct (i_new _ _ _ _ _ I p Ed) as (t & Et & Hle). rewrite Et. cbn [is_none orb newer_o].
+    rewrite orb_true_r. apply N.ltb_lt. apply Hbelow in Ek. lia.
+  - rewrite (i_same _ _ _ _ _ I p Ed) in *. rewrite orb_false_r. rewrite <- (Hq2 b Hball p Hp), Ek.
+    destruct (f2 p); [reflexivity|congruence].
 Qed.
 
 Theorem blocks_run :
@@ -892,7 +961,7 @@ Proof.
   assert (Hq2 : forall b, In b all -> forall p, In p (b_deps b) -> newer_o (f1 p) (f1 (b_key b)) = false).
   { intros b Hb' p Hp. destruct (Hq b Hb') as ((tk & Ek & Hd) & _). destruct (Hd p Hp) as (tp & Ep & Hle).
     rewrite Ek, Ep. cbn [newer_o]. now apply N.ltb_ge. }
-  destruct (blocks_run all f1 clk (fun _ => false) Hnd Hord Hb) as (F & L & Q & B & _ & Fr).
+  destruct (blocks_run all f1 clk (fun _ _ => false) Hnd Hord Hb) as (F & L & Q & B & _ & Fr).
   - intros b Hb' p Hp _. exact (xq_src all f1 Hq b Hb' p Hp).
   - exact Hq2.
   - intros b Hb' _ y Hy. destruct (Hq b Hb') as (_ & _ & Ht). now apply Ht.
@@ -905,7 +974,7 @@ Qed.
 (* after touching X: the steps the fold predicts, and the tree is up to date again *)
 Theorem run_touched all f1 clk X :
   wf_blocks all -> fs_below f1 clk -> quiet all f1 ->
-  let f2 := upd f1 X clk in let tx := fun p => p =? X in
+  let f2 := upd f1 X clk in let tx := fun (_ : block) p => p =? X in
   let s' := dmake (rules all) (goals all) f2 (clk + 1) in
   d_fail s' = false /\ d_log s' = map b_key (snd (fold_left (bd_step f2 tx) all ([], []))) /\
   quiet all (d_fs s') /\ fs_below (d_fs s') (d_clk s').
@@ -918,7 +987,7 @@ Proof.
   { intros b Hb' p Hp ->. apply in_split in Hb' as (pre & post & ->).
     destruct (ordered_b_app pre b post Hord) as [Ho _]. apply (Ho (b_key b) (in_or_app _ _ _ (or_introl Hp))).
     cbn [tgts flat_map]. apply in_or_app. left. apply key_targets. }
-  destruct (blocks_run all (upd f1 X clk) (clk + 1) (fun p => p =? X) Hnd Hord Hb2) as (F & L & Q & B & _ & _).
+  destruct (blocks_run all (upd f1 X clk) (clk + 1) (fun _ p => p =? X) Hnd Hord Hb2) as (F & L & Q & B & _ & _).
   - intros b Hb' p Hp _. unfold upd. destruct (p =? X); [discriminate|]. exact (xq_src all f1 Hq b Hb' p Hp).
   - intros b Hb' p Hp. destruct (Hq b Hb') as ((tk & Ek & Hd) & _). destruct (Hd p Hp) as (tp & Ep & Hle).
     pose proof (Hself b Hb' p Hp) as Hne. unfold upd. destruct (N.eqb_spec p X) as [->|HpX].
@@ -951,7 +1020,7 @@ Proof.
   intros [Hnd Hord] Hb Hclean Hsrc.
   assert (Hk : forall b, In b all -> f (b_key b) = None).
   { intros b Hb'. apply Hclean. unfold tgts. apply in_flat_map. exists b. split; [exact Hb'|apply key_targets]. }
-  destruct (blocks_run all f clk (fun _ => false) Hnd Hord Hb Hsrc) as (F & L & Q & B & _ & Fr).
+  destruct (blocks_run all f clk (fun _ _ => false) Hnd Hord Hb Hsrc) as (F & L & Q & B & _ & Fr).
   - intros b Hb' p Hp. rewrite (Hk b Hb'). now destruct (f p).
   - intros b Hb' H. now rewrite (Hk b Hb') in H.
   - rewrite (fold_all f _ all Hk) in L. cbn [app] in L. cbn zeta.
@@ -1162,7 +1231,7 @@ Qed.
 
 Lemma bfire_script lag f2 x dB dS st :
   sms st -> f2 (b_key (blk lag st)) <> None -> drel dB dS ->
-  bfire f2 (fun p => p =? encF x) dB (blk lag st) = existsb (fun p => (p =? x) || memN p dS) (consumed st).
+  bfire f2 (fun _ p => p =? encF x) dB (blk lag st) = existsb (fun p => (p =? x) || memN p dS) (consumed st).
 Proof.
   intros [Hst Hsh] Hk R. unfold bfire. destruct (f2 (b_key (blk lag st))); [|congruence]. cbn [is_none orb].
   rewrite (proj1 (blk_deps lag st Hst)), existsb_map.
@@ -1172,7 +1241,7 @@ Qed.
 
 Lemma fold_rel lag f2 x l : Forall sms l -> (forall st, In st l -> f2 (b_key (blk lag st)) <> None) ->
   forall dB dS ranS, drel dB dS ->
-  exists dB', fold_left (bd_step f2 (fun p => p =? encF x)) (map (blk lag) l) (dB, map (blk lag) ranS) =
+  exists dB', fold_left (bd_step f2 (fun _ p => p =? encF x)) (map (blk lag) l) (dB, map (blk lag) ranS) =
               (dB', map (blk lag) (snd (fold_left (sdown_steps_step x) l (dS, ranS)))) /\
               drel dB' (fst (fold_left (sdown_steps_step x) l (dS, ranS))).
 Proof.
